@@ -44,6 +44,19 @@ func c02Property(t *rapid.T) {
 	begin := rapid.SampledFrom([]string{"FIX.4.2", "FIX.4.4", "FIXT.1.1", "FIX.4.0"}).Draw(t, "begin")
 	storeKind := rapid.SampledFrom([]string{"memory", "memory", "file", "sql"}).Draw(t, "store")
 	id := quickfix.SessionID{BeginString: begin, SenderCompID: "ENG", TargetCompID: "PEER"}
+	// the optional identity fields are part of the key under which a persistent store files the messages
+	if rapid.Bool().Draw(t, "rich-identity") {
+		opt := func(label, v string) string {
+			if rapid.Bool().Draw(t, label) {
+				return v
+			}
+			return ""
+		}
+		id.SenderSubID, id.SenderLocationID = opt("sender-sub", "DESK7"), opt("sender-loc", "NY")
+		id.TargetSubID, id.TargetLocationID = opt("target-sub", "GW"), opt("target-loc", "LDN")
+		id.Qualifier = opt("qualifier", "q1")
+		c.Class("identity-with-optional-fields")
+	}
 	dir := ""
 	var factory quickfix.MessageStoreFactory
 	switch storeKind {
